@@ -99,7 +99,12 @@ class SendSock:
         if ev[0] == "k":
             self.peer.extend(bytes(data))
             return None
-        self.terminal = ev
+        if ev[0] == "partial-err":
+            # sendall is not restartable: part of the buffer is on the wire when it fails
+            self.peer.extend(bytes(data[:max(1, len(data) // 2)]) if len(data) else b"")
+            ev = ("err", ev[1])
+        if self.terminal is None:
+            self.terminal = ev
         if ev[0] == "err":
             raise OSError(ev[1], "scripted")
         if ev[0] == "timeout":
@@ -207,7 +212,7 @@ def check_send(n, blocking, script, V, stats, errors, socketutil, as_type):
             want = "TimeoutError" if s.terminal == ("timeout",) else "ConnectionClosedError"
             if got != want:
                 V("send-wrong-exception|%s-instead-of-%s" % (got, want), "after %r; %s" % (s.terminal, cfgs))
-            if not blocking and data[:len(peer)] != peer:
+            if data[:len(peer)] != peer:
                 V("send-garbled-before-error", "peer received bytes that are not a prefix of the buffer; %s" % cfgs)
     return got, s.terminal
 
@@ -244,7 +249,7 @@ def task(unit):
             n, blocking, as_type = params
             if blocking:
                 nonterm = [("k", "all")]
-                term = [FATAL[0], FATAL[2], ("timeout",)]
+                term = [FATAL[0], FATAL[2], ("timeout",), ("partial-err", errno.EINTR), ("partial-err", errno.EAGAIN), ("partial-err", errno.ECONNRESET), ("err", errno.EAGAIN)]
             else:
                 nonterm = [("k", "1"), ("k", "2"), ("k", "half"), ("k", "n-1"), ("k", "all"), ("k", "0")] + RETRY
                 term = FATAL + [("timeout",)]
